@@ -167,7 +167,7 @@ def contracts():
                 assert(self.hooks@.take(k + 1).last() == self.hooks@[k]);
                 assert(hook_names(res@) =~= hook_names(res_before@) + hook_names(h_before@));
             }"""),
-        ("before_stmt", "Ok(res)", 1, "proof { assert(self.hooks@.take(self.hooks@.len() as int) =~= self.hooks@); }")]
+        ("before_tail", None, 1, "proof { assert(self.hooks@.take(self.hooks@.len() as int) =~= self.hooks@); }")]
     c["Account::get_hooks"].loops = {1: "    invariant expand_list(*cnf, h@.take(it.index@), cnf.group@.len()) == Some(hook_names(res@)), self.hooks == Some(*h), hs@ == h@,"}
     c["Account::get_hooks"].at = [
         ("before", "h.iter()", 1, "it:"),
@@ -182,7 +182,7 @@ def contracts():
                     }"""),
         ("after_stmt", "let mut res = vec![]", 1, "let ghost hs = *h;"),
         ("after_stmt", "for name in h.iter()", 1, "proof { assert(hs@.take(hs@.len() as int) =~= hs@); }"),
-        ("before_stmt", "Ok(lst)", 1, "proof { assert(hook_names(Seq::<hooks::Hook>::empty()) =~= Seq::<Seq<char>>::empty()); }")]
+        ("before_tail", None, 1, "proof { assert(hook_names(Seq::<hooks::Hook>::empty()) =~= Seq::<Seq<char>>::empty()); }")]
     # ---- C18: the root certificate list handed to the HTTP layer = command line ++ endpoint ++ global, in this order
     c["Endpoint::to_generic"] = FnSpec(ret="r", sig="""
     ensures
@@ -227,7 +227,7 @@ def contracts():
             let ghost add0 = add_cnf;
             proof { lemma_cnf_after(*w, lf_before, loaded_files@, old(loaded_files)@, path@); }"""),
             ("before_stmt", "for cnf_name in", 1, "proof { lemma_cnf_start(*w, loaded_files@, old(loaded_files)@, path@); }"),
-            ("before_stmt", "Ok(config)", 1, "proof { lemma_cnf_end(*w, loaded_files@, old(loaded_files)@, path@); }"),
+            ("before_tail", None, 1, "proof { lemma_cnf_end(*w, loaded_files@, old(loaded_files)@, path@); }"),
             ("before_stmt", "if config.global.is_none()", 1, """
             proof {
                 // C14: sections of included files are appended, none is dropped
